@@ -1,5 +1,64 @@
-(* placeholder: replaced when Proofs/HttpP.v lands *)
-From XS Require Import Model.Http.
-Theorem C13_version_total : forall fixed st i, exists b st', handle fixed st i RVersion = (HResp 200 b, st').
-Proof. intros. eexists. eexists. reflexivity. Qed.
-Print Assumptions C13_version_total.
+(* C13 — the HTTP API is a faithful and total front end to the store.
+   Over Model/Http.v: requests are abstract values in which every way a component can be
+   malformed is an explicit constructor; [handle true] is the current api.rs, [handle false]
+   the pinned one.  Rendering/parsing of bytes (hyper, serde, base64, url) is outside the
+   model; it is exercised by engine H, which must classify each malformation the same way. *)
+From XS Require Import Model.Http Proofs.HttpP.
+
+(* every request, however malformed, receives a response - never a dropped connection *)
+Theorem C13_total : forall st i r, exists status b st', handle true st i r = (HResp status b, st').
+Proof. exact handle_total. Qed.
+Theorem C13_total_sequences : forall rs st, Forall (fun resp => resp <> HDropped) (fst (hrun true st rs)).
+Proof. exact hrun_total. Qed.
+Print Assumptions C13_total.
+Print Assumptions C13_total_sequences.
+
+(* a request that did not succeed changes nothing in the store (an orphaned CAS body is allowed) *)
+Theorem C13_errors_pure : forall st i r status b st',
+  handle true st i r = (HResp status b, st') -> 400 <= status -> h_store st' = h_store st.
+Proof. exact handle_error_pure. Qed.
+Print Assumptions C13_errors_pure.
+
+(* each route has exactly the effect and result of the corresponding store operation *)
+Theorem C13_get : forall st i j, handle true st i (RGet (QOk j))
+  = (match get (h_store st) j with Some f => HResp 200 (BFrame f) | None => HResp 404 BEmpty end, st).
+Proof. exact faithful_get. Qed.
+Theorem C13_head : forall st i topic c cx, ctx_of c = Some cx -> handle true st i (RHead topic c)
+  = (match head (h_store st) topic cx with Some f => HResp 200 (BFrame f) | None => HResp 404 BEmpty end, st).
+Proof. exact faithful_head. Qed.
+Theorem C13_remove : forall st i j, handle true st i (RRemove (QOk j))
+  = (match fst (remove (h_store st) j) with Ok _ => HResp 204 BEmpty | Err _ => HResp 500 BText end,
+     mkH (snd (remove (h_store st) j)) (h_cas st)).
+Proof. exact faithful_remove. Qed.
+Theorem C13_import : forall st i f, handle true st i (RImport (Some f))
+  = (match fst (insert_frame (h_store st) f) with Ok _ => HResp 200 (BFrame f) | Err _ => HResp 500 BText end,
+     mkH (snd (insert_frame (h_store st) f)) (h_cas st)).
+Proof. exact faithful_import. Qed.
+Theorem C13_cat : forall st i sse l lim c, handle true st i (RCat sse (Some (l, lim, c)))
+  = (HResp 200 (BFrames sse (fst (read_hist (h_store st) l lim c))),
+     mkH (snd (read_hist (h_store st) l lim c)) (h_cas st)).
+Proof. exact faithful_cat. Qed.
+Check faithful_append.          (* POST /{topic}: response and store are those of Store.append *)
+Check cat_sse_same_frames.      (* NDJSON and SSE carry the same frames *)
+Print Assumptions C13_get.
+Print Assumptions C13_head.
+Print Assumptions C13_remove.
+Print Assumptions C13_import.
+Print Assumptions C13_cat.
+Print Assumptions faithful_append.
+Print Assumptions cat_sse_same_frames.
+
+(* 4xx for client errors: proved for every malformation of the request syntax ... *)
+Theorem C13_syntax_errors_400 : forall st i r, syntax_malformed r ->
+  exists st', handle true st i r = (HResp 400 BText, st') /\ h_store st' = h_store st.
+Proof. exact client_errors_4xx_partial. Qed.
+Print Assumptions C13_syntax_errors_400.
+(* ... and REFUTED for store validation errors (known finding validation-errors-are-500) *)
+Check validation_error_is_500.
+Check unregistered_ctx_is_500.
+
+(* regression witnesses: the pinned handlers dropped the connection (fixed in /repo da523f3, 4e3122e) *)
+Check pinned_not_total.
+Check pinned_differs_only_there.
+(* non-vacuity *)
+Check demo_run.
